@@ -186,6 +186,11 @@ impl TypeCtx {
     fn enter_pure(self) -> Self {
         Self { inside_pure: true, ..self }
     }
+
+    fn enter_function(self) -> Self {
+        // A loop around a function is not a loop the function body can `break` out of.
+        Self { inside_loop: false, ..self }
+    }
 }
 
 impl TypeChecker {
@@ -949,6 +954,7 @@ impl TypeChecker {
             E::Function { name: _, params, ret, body, pure, span } => {
                 let (f_ty, ret_ty) = self.type_from_function(ctx, params, ret, *pure)?;
 
+                let ctx = ctx.enter_function();
                 let ctx = if *pure { ctx.enter_pure() } else { ctx };
                 let (actual_ret, implicit_ret) = self.expression_block(*span, body, ctx)?;
                 let actual_ret = if ret.is_void() {
